@@ -59,6 +59,10 @@ def generate(rng, index, cfg):
         "clean_filter": rng.choice([None, None, None, None, "cat", "sed -e s/print/PRINT/g", "sed -e s/print/PRINT/g"]),
         # how the attribute selecting the filter is written: by basename, or by patterns containing a slash
         "filter_pattern": rng.choice(["basename", "per_dir", "per_dir"]),
+        # where git finds that attribute and the filter's definition: $GIT_DIR/info/attributes, the per-user file
+        # ($XDG_CONFIG_HOME/git/attributes or core.attributesFile), an in-tree .gitattributes; repository or user config
+        "filter_location": rng.choice(["info", "info", "xdg", "attributesfile", "tree"]),
+        "filter_config_scope": rng.choice(["local", "local", "global"]),
     }
     dirs = swarm["dirs"]
     ops = []
@@ -755,8 +759,21 @@ class Runner:
         self.log.ev("start", swarm=self.trace.get("swarm"))
         self.clean_filter = (self.trace.get("swarm") or {}).get("clean_filter")
         if self.clean_filter:
-            w.git("config", "filter.nbclean.clean", self.clean_filter)
-            with open(os.path.join(w.work, ".git", "info", "attributes"), "w") as f:
+            sw = self.trace.get("swarm") or {}
+            w.git("config", "--" + sw.get("filter_config_scope", "local"), "filter.nbclean.clean", self.clean_filter)
+            loc = sw.get("filter_location", "info")
+            if loc == "xdg":
+                attrs = os.path.join(w.xdg, "git", "attributes")
+            elif loc == "attributesfile":
+                attrs = os.path.join(w.home, "my attributes")
+                w.git("config", "--global", "core.attributesFile", "~/my attributes")
+            elif loc == "tree":
+                attrs = os.path.join(w.work, ".gitattributes")
+            else:
+                attrs = os.path.join(w.work, ".git", "info", "attributes")
+            os.makedirs(os.path.dirname(attrs), exist_ok=True)
+            self.stat("filter_location_" + loc)
+            with open(attrs, "w") as f:
                 if (self.trace.get("swarm") or {}).get("filter_pattern") == "per_dir":
                     for d in DIRS:
                         f.write("%s/*.ipynb filter=nbclean\n" % (d.replace(" ", "[[:space:]]") if d else ""))
